@@ -184,11 +184,13 @@ func (t *Topic) DeleteExistingChannel(channelName string) error {
 
 // PutMessage writes a Message to the queue
 func (t *Topic) PutMessage(m *Message) error {
+	verifPoint("topic-put:before-rlock")
 	t.RLock()
 	defer t.RUnlock()
 	if atomic.LoadInt32(&t.exitFlag) == 1 {
 		return errors.New("exiting")
 	}
+	verifPoint("topic-put:after-exit-check")
 	err := t.put(m)
 	if err != nil {
 		return err
